@@ -9,6 +9,7 @@ HERE="$(cd "$(dirname "$0")/.." && pwd)"
 export CARGO_NET_OFFLINE=true
 TD="$HERE/target/fuzz"
 cd "$HERE/harness" || exit 2
+# NB: the fuzz targets always build against /repo (cargo-fuzz does not take --config)
 if ! cargo +nightly fuzz build "$TARGET" --target-dir "$TD" >"$HERE/target/fuzz-build.log" 2>&1; then
     echo "INCONCLUSIVE: fuzz target $TARGET does not build (see target/fuzz-build.log)"; tail -n 20 "$HERE/target/fuzz-build.log"; exit 2
 fi
